@@ -451,6 +451,11 @@ def c16(ctx):
             kw = sched_variants(ctx, r["doc"], entry, rnd) if entry == "reader" else {}
             kw.pop("eofwith", None)
             cases.append(case("C16", "fault", fmt, doc=r["doc"], entry=entry, sub=dict(target="parser"), origin="Gen", **kw))
+    # Fold as a producer: TLC-enumerated Go programs into a failing visitor
+    rows = gen_gotypes(ctx, quick=True)
+    rnd.shuffle(rows)
+    for n, r in enumerate(rows[: 2500 if ctx.quick else 7000]):
+        cases.append(case("C16", "fault", "go", sub=dict(target="fold", T=r["T"], V=gotypes.fill(r["V"], rnd, n)), origin="GenGoType"))
     number(cases)
     tf, st = core.run_harness(ctx, cases)
     failed, nv = core.tlc_validate(ctx, "TraceCodec", tf)
@@ -465,11 +470,12 @@ def c16(ctx):
         rule="fault enumeration driven by the model's cases: TLC-enumerated event streams x 3 encoders over a sink that fails from its "
              "k-th write on, for EVERY k = 1..W (W measured by a fault-free run); TLC-enumerated valid documents x 3 parsers "
              "(Parse / ParseReader with short reads / Decoder.Next) into a visitor that fails at its k-th event for EVERY k = 1..E; "
-             "extended-event streams into EnsureExtVisitor over a failing plain visitor likewise. TraceCodec!FaultVerdict requires the "
+             "extended-event streams into EnsureExtVisitor over a failing plain visitor likewise; TLC-enumerated Go programs (GenGoType) "
+             "folded into a visitor failing at every event. TraceCodec!FaultVerdict requires the "
              "error latch. Distinct = distinct (stream|document, target); non-trivial = at least 2 fault positions.",
         nontrivial=lambda c: len(c["stream"]) + len(c["doc"]) >= 2,
         extra_cov=dict(fault_runs=nruns),
-        assumptions=TCB + ["Fold as a producer with a failing visitor is covered by the gotype checks, not here"])
+        assumptions=TCB)
 
 
 # ---------------------------------------------------------------- C18
@@ -574,7 +580,8 @@ def c17(ctx):
     A = 12 if ctx.quick else 16
     H = 2 if ctx.quick else 3
     # ---- encoders
-    shapes = [s for s in gen_events(ctx, quick=True) if len(s) <= 6]
+    # Go iterates maps in random order, so a map event with two entries has no fixed byte image: not in the alphabet
+    shapes = [s for s in gen_events(ctx, quick=True) if len(s) <= 6 and not any(a["k"] == "xobj" and a["n"] >= 2 for a in s)]
     ext = pick_diverse([s for s in shapes if has_ext(s)], shape_sig, A // 2, rnd)
     oth = pick_diverse([s for s in shapes if not has_ext(s)], shape_sig, A - len(ext), rnd)
     alpha = [streams.fills(s, 1, rnd)[0] for s in ext + oth]
@@ -644,7 +651,8 @@ def c09_codec_cases(ctx):
 
 def c09(ctx):
     cases = c09_codec_cases(ctx)
-    fold = GOTYPE_C09(ctx) if GOTYPE_C09 else []
+    # Fold as a producer: every TLC-enumerated Go program (omit/omitempty/inline combinations, pointers, interfaces, maps, slices, custom folders)
+    cases += fold_cases(ctx, "C09")
     number(cases)
     tf, st = core.run_harness(ctx, cases)
     failed, nv = core.tlc_validate(ctx, "TraceCodec", tf)
@@ -652,11 +660,13 @@ def c09(ctx):
         ctx, "TraceCodec", cases, tf, failed, nv, level_note="",
         rule="contract monitor = SFEvents!CStep folded over every recorded event: (a) the three real parsers on every TLC-enumerated "
              "document they accept (Parse, bytewise/seeded Write, Decoder.Next), (b) the adapters of array.go/map.go/string.go "
-             "(EnsureExtVisitor over a plain recording Visitor) on every TLC-enumerated stream with an extended event. Balanced and "
+             "(EnsureExtVisitor over a plain recording Visitor) on every TLC-enumerated stream with an extended event, (c) gotype.Fold "
+             "on every TLC-enumerated Go program of GenGoType (struct tag combinations omit/omitempty/inline, pointers, interfaces, maps, "
+             "slices, IsZeroer/Folder types). Balanced and "
              "nested, one key per value, announced length = elements seen, announced element type = element family. Distinct = distinct "
              "(document|stream, entry); non-trivial = at least one container.",
-        nontrivial=lambda c: len(c["doc"]) >= 2 or len(c["stream"]) >= 1,
-        assumptions=TCB + ["Fold as a producer is monitored by the same contract machine in the gotype checks (C12), whose C09 reasons are reported there"])
+        nontrivial=lambda c: len(c["doc"]) >= 2 or len(c["stream"]) >= 1 or c["kind"] == "fold",
+        assumptions=TCB)
 
 
 GOTYPE_C09 = None
